@@ -172,7 +172,7 @@ def site_extxyz_lattice(ctx, rid):
     _run(ctx, rid, g, e, "extended-XYZ Lattice", thunk)
 
 
-def _fchk_pair(ctx, rid, label, writer_env_builder, reader_env_builder, shape, desc):
+def _fchk_pair(ctx, rid, label, writer_env_builder, reader_env_builder, shape, desc, want=None):
     prog = ctx.prog
     lo = prog.func("iodata.formats.fchk.load_one")
     do = prog.func("iodata.formats.fchk.dump_one")
@@ -193,7 +193,7 @@ def _fchk_pair(ctx, rid, label, writer_env_builder, reader_env_builder, shape, d
 
     def thunk():
         wenv = writer_env_builder(C)
-        flat = _SplitEval(wenv, prog, do).eval(deref_local(do, wc, wenv))
+        flat = _SplitEval(wenv, prog, do).eval(deref_local(do, wc, wenv, prog))
         flat = np.asarray(flat, dtype=object)
         if flat.ndim != 1:
             raise NotSymbolic("writer does not produce a flat sequence")
@@ -202,16 +202,45 @@ def _fchk_pair(ctx, rid, label, writer_env_builder, reader_env_builder, shape, d
         g, re_ = rc
         renv = reader_env_builder(flat)
         got = _SplitEval(renv, prog, g).eval(re_)
-        return got, C, desc
+        return got, (C if want is None else want), desc
 
     holder = rc[1] if rc else wc
     _run(ctx, rid, rc[0] if rc else do, holder, f"FCHK '{label}' (writer then reader)", thunk)
 
 
-def deref_local(func, expr, env):
-    """Inline single-definition locals that are not inputs of the evaluation."""
-    from ..astutil import single_def
+def deref_local(func, expr, env, prog=None):
+    """Inline locals that are not inputs of the evaluation: the unique definition, or (when a name is assigned more
+    than once) the latest assignment that dominates the use."""
+    from ..astutil import assignments_to, single_def
+    from ..cfg import cfg_of
     import copy
+
+    use_stmt = None
+    if prog is not None:
+        pm = prog.parents(func)
+        cur = expr
+        while cur is not None and not isinstance(cur, ast.stmt):
+            cur = pm.get(id(cur))
+        use_stmt = cur
+
+    def reaching(name):
+        d = single_def(func, name)
+        if d is not None or use_stmt is None or name in func.params:
+            return d
+        cfg = cfg_of(func)
+        best = None
+        for st, val, extra in assignments_to(func, name):
+            if extra is not None or val is None or not isinstance(st, ast.stmt):
+                continue
+            if st.lineno < use_stmt.lineno and cfg.dominates(st, use_stmt) and (best is None or st.lineno > best[0].lineno):
+                best = (st, val)
+        if best is None:
+            return None
+        # no other assignment between the chosen one and the use
+        for st, val, extra in assignments_to(func, name):
+            if isinstance(st, ast.stmt) and best[0].lineno < st.lineno < use_stmt.lineno:
+                return None
+        return best[1]
 
     class Sub(ast.NodeTransformer):
         def __init__(self):
@@ -220,7 +249,7 @@ def deref_local(func, expr, env):
         def visit_Name(self, n):
             if n.id in env or self.depth > 4:
                 return n
-            d = single_def(func, n.id)
+            d = reaching(n.id)
             if d is None:
                 return n
             self.depth += 1
@@ -231,16 +260,77 @@ def deref_local(func, expr, env):
     return Sub().visit(copy.deepcopy(expr))
 
 
+def _mo_data(full):
+    """A stand-in for `data.mo` whose alpha/beta blocks are the two halves of one symbolic matrix."""
+    n = full.shape[1] // 2
+    return {"coeffs": full, "coeffsa": full[:, :n], "coeffsb": full[:, n:], "norba": n, "norbb": n, "norb": 2 * n}
+
+
 def site_fchk_mo(ctx, rid):
-    # coefficient matrix: rows = basis functions (3), columns = orbitals (2); the file lists orbital after orbital
-    for label, var, nvar in (("Alpha MO coefficients", "coeffsa", "norba"), ("Beta MO coefficients", "coeffsb", "norbb")):
+    # coefficient matrix: rows = basis functions (3), columns = orbitals (2 alpha + 2 beta); the file lists orbital
+    # after orbital.  Conventions are taken as identity here (their application is C01's business).
+    prog = ctx.prog
+    do = prog.func("iodata.formats.fchk.dump_one")
+    dparam = do.posparams[1]
+    full = sym_array("x", (3, 4))
+    ones = np.array([Sym.const(1)] * 3, dtype=object)
+    for label, nvar, block in (("Alpha MO coefficients", "norba", full[:, :2]), ("Beta MO coefficients", "norbb", full[:, 2:])):
         _fchk_pair(
             ctx, rid, label,
-            lambda C, var=var: {var: C},
+            lambda C: {dparam: {"mo": _mo_data(full)}, "permutation": [0, 1, 2], "signs": ones},
             lambda flat, label=label, nvar=nvar: {"fchk": {label: flat}, nvar: 2, "nbasis": 3},
             (3, 2),
             "entry (basis function i, orbital j) comes back where it was (the file lists one orbital after the other)",
+            want=block,
         )
+
+
+def site_writer_conventions(ctx, rid):
+    """Rows written = signs[r] * coefficients[permutation[r]] for every wavefunction writer (evaluated on symbols)."""
+    prog = ctx.prog
+    cc = prog.func("iodata.convert.convert_conventions")
+    n = 0
+    for short in ("fchk", "molden", "molekel", "wfn", "wfx"):
+        do = prog.format_op(short, "dump_one")
+        funcs = [do] + [g for g in prog.callees_closure([do]) if g.module is do.module and g is not do]
+        for f in funcs:
+            pairs = []
+            for nd in f.own_nodes():
+                if isinstance(nd, ast.Assign) and isinstance(nd.value, ast.Call) and len(nd.targets) == 1 and isinstance(nd.targets[0], ast.Tuple) and len(nd.targets[0].elts) == 2:
+                    cs = next((c for c in f.calls if c.node is nd.value), None)
+                    if cs is not None and cc in cs.callees and all(isinstance(e, ast.Name) for e in nd.targets[0].elts):
+                        pairs.append((nd.targets[0].elts[0].id, nd.targets[0].elts[1].id))
+            if not pairs:
+                continue
+            pv, sv = pairs[0]
+            dparam = next((p_ for p_ in f.posparams if p_ == "data"), None) or (f.posparams[1] if len(f.posparams) > 1 else f.posparams[0])
+            sites = []
+            for e, holder in _value_exprs(f):
+                names = {x.id for x in ast.walk(e) if isinstance(x, ast.Name)}
+                if pv in names and sv in names and any(isinstance(x, ast.Attribute) and x.attr.startswith("coeffs") for x in ast.walk(e)):
+                    sites.append((e, holder))
+            # keep the smallest expression per holder statement
+            best = {}
+            for e, holder in sites:
+                k = id(holder)
+                if k not in best or len(src_of(e)) < len(src_of(best[k][0])):
+                    best[k] = (e, holder)
+            for e, holder in best.values():
+                n += 1
+                full = sym_array("c", (3, 4))
+                sg = sym_array("s", (3,))
+                perm = [2, 0, 1]
+                attr = next(x.attr for x in ast.walk(e) if isinstance(x, ast.Attribute) and x.attr.startswith("coeffs"))
+                src = _mo_data(full)[attr]
+
+                def thunk(e=e, f=f, src=src, sg=sg, perm=perm, full=full, dparam=dparam, pv=pv, sv=sv):
+                    got = _SplitEval({dparam: {"mo": _mo_data(full)}, pv: perm, sv: sg}, prog, f).eval(e)
+                    want = np.array([[sg[r] * src[perm[r], j] for j in range(src.shape[1])] for r in range(3)], dtype=object)
+                    return got, want, "row r of the written block = signs[r] x source row permutation[r] (index with the permutation first, then scale)"
+
+                _run(ctx, rid, f, e, f"{short} writer, {attr}", thunk)
+    if n < 8:
+        raise AnalysisError(f"only {n} convention-application expressions found in the wavefunction writers (expected >= 8)")
 
 
 def site_fchk_coords(ctx, rid):
@@ -315,6 +405,7 @@ SITES = {
     "vasp_direct": site_vasp_direct,
     "extxyz_lattice": site_extxyz_lattice,
     "fchk_mo": site_fchk_mo,
+    "writer_conventions": site_writer_conventions,
     "fchk_coords": site_fchk_coords,
     "json_geometry": site_json_geometry,
     "wfx_mo": site_wfx_mo,
